@@ -96,8 +96,10 @@ func (b *faultBatch) Write() error {
 	return b.Batch.Write()
 }
 
-func (f *faultDB) NewBatch() db.Batch                 { return &faultBatch{Batch: f.Database.NewBatch(), f: f} }
-func (f *faultDB) NewBatchWithSize(n int) db.Batch    { return &faultBatch{Batch: f.Database.NewBatchWithSize(n), f: f} }
+func (f *faultDB) NewBatch() db.Batch { return &faultBatch{Batch: f.Database.NewBatch(), f: f} }
+func (f *faultDB) NewBatchWithSize(n int) db.Batch {
+	return &faultBatch{Batch: f.Database.NewBatchWithSize(n), f: f}
+}
 
 type faultSnapshot struct {
 	db.Snapshot
@@ -111,6 +113,8 @@ func (s *faultSnapshot) Get(key []byte, cb func([]byte) error) error {
 	return s.Snapshot.Get(key, cb)
 }
 
-func (f *faultDB) NewSnapshot() db.Snapshot { return &faultSnapshot{Snapshot: f.Database.NewSnapshot(), f: f} }
+func (f *faultDB) NewSnapshot() db.Snapshot {
+	return &faultSnapshot{Snapshot: f.Database.NewSnapshot(), f: f}
+}
 
 func (f *faultDB) WithListener(db.EventListener) db.KeyValueStore { return f }
